@@ -651,10 +651,19 @@ func runC09(c *eng.Ctx, thorough bool) {
 	} {
 		if f := c.Fn(pr.fn); f != nil {
 			c.Clause("R5", "C09.4")
-			cs := eng.Calls(f, pr.callee)
+			type recSite struct {
+				fn *ssa.Function
+				cl ssa.CallInstruction
+			}
+			var cs []recSite
+			for _, g := range append([]*ssa.Function{f}, eng.Closures(f)...) { // directly, or in a function literal of f
+				for _, cl := range eng.Calls(g, pr.callee) {
+					cs = append(cs, recSite{g, cl})
+				}
+			}
 			if c.Floor(f, "tracker record call", len(cs), 1) {
-				for _, cl := range cs {
-					c.Prov(f, "index a write is recorded under", cl, cl.Common().Args[1], `^field:s\.commandIndex$`)
+				for _, r := range cs {
+					c.Prov(r.fn, "index a write is recorded under", r.cl, r.cl.Common().Args[1], `^field:\^?s\.commandIndex$`)
 				}
 			}
 		}
@@ -1107,19 +1116,101 @@ func raftFastPath(c *eng.Ctx, clause string) {
 	if m, miss := c.P.StaticCallee("raft.(*fsmTxnCommitIndexTracker).hasModifiedEntry", "raft.(*fsmTxnCommitIndexTracker).hasModifiedListEntry"); len(miss) == 0 {
 		qs := c.P.FindCalls(m, func(fn *ssa.Function) bool { return eng.InPkg(fn, "raft") })
 		sort.Slice(qs, func(i, j int) bool { return qs[i].Call.Pos() < qs[j].Call.Pos() })
+		judged := map[*ssa.Function]bool{}
 		for _, q := range qs {
 			a := q.Call.Common().Args
-			c.Prov(q.Fn, "window lower bound", q.Call, a[1], `^field:s\.txnStartIndex$`)
-			c.Prov(q.Fn, "window upper bound", q.Call, a[2], `^field:s\.commandIndex$`)
-			if strings.Contains(eng.FuncName(q.Fn), "canFastWriteBypass") {
-				c.Prov(q.Fn, "key queried", q.Call, a[3], `^param:key$`)
-				for _, r := range eng.Returns(q.Fn) {
-					s := eng.ExprDeep(r.Results[0])
-					if strings.HasPrefix(s, "!") && strings.Contains(s, "#1") {
-						c.OK(q.Fn, "bypass = !modified", r.Pos(), s)
-					} else {
-						c.Violation(q.Fn, "bypass = !modified", r.Pos(), "the bypass predicate is not the negation of the tracker's 'modified' answer: "+s, nil)
+			// (the receiver may be seen through a function literal's capture)
+			c.Prov(q.Fn, "window lower bound", q.Call, a[1], `^field:\^?s\.txnStartIndex$`)
+			c.Prov(q.Fn, "window upper bound", q.Call, a[2], `^field:\^?s\.commandIndex$`)
+			top := eng.TopFunc(q.Fn)
+			if !strings.Contains(eng.FuncName(top), "canFastWriteBypass") {
+				continue
+			}
+			// the key asked about is the predicate's own argument (by position: its only one), also when
+			// the query sits in a function literal of the predicate that is handed that argument
+			site := "key queried"
+			if len(top.Params) < 2 {
+				c.Undecided(top, site, q.Call.Pos(), "the bypass predicate has no key parameter")
+			} else {
+				want := ssa.Value(top.Params[len(top.Params)-1])
+				var frames []*nfFrame
+				if q.Fn == top {
+					frames = []*nfFrame{nil}
+				} else {
+					for _, ci := range nfAllCalls(top) {
+						if g, _ := nfFuncValue(ci.Common().Value); g == q.Fn {
+							frames = append(frames, &nfFrame{call: ci})
+						}
 					}
+				}
+				bad := ""
+				if len(frames) == 0 {
+					bad = "the function literal holding the query is not called from the predicate"
+				}
+				for _, fr := range frames {
+					for _, o := range nfOrigins(a[3], fr) {
+						if o.Val != want {
+							bad = o.Kind + ":" + o.Desc
+						}
+					}
+				}
+				if bad == "" {
+					c.OK(q.Fn, site, q.Call.Pos(), "the predicate's own argument "+eng.Expr(want))
+				} else {
+					c.Violation(q.Fn, site, q.Call.Pos(), "the record is asked about "+bad+", not about the key / prefix the bypass predicate was given", nil)
+				}
+			}
+			// the predicate is the negation of the record's 'modified' answer (judged on what the
+			// top-level predicate returns; the answer may come back through a function literal)
+			if judged[top] {
+				continue
+			}
+			judged[top] = true
+			var answer, negated func(v ssa.Value, depth int) bool
+			viaLiteral := func(v ssa.Value, depth int, each func(ssa.Value, int) bool) bool {
+				cl, ok := v.(*ssa.Call)
+				if !ok || depth == 0 {
+					return false
+				}
+				g, _ := nfFuncValue(cl.Call.Value)
+				if g == nil || eng.TopFunc(g) != top || len(g.Blocks) == 0 {
+					return false
+				}
+				n := 0
+				for _, r := range eng.Returns(g) {
+					if r.Block().Comment == "recover" {
+						continue
+					}
+					n++
+					if len(r.Results) != 1 || !each(r.Results[0], depth-1) {
+						return false
+					}
+				}
+				return n > 0
+			}
+			answer = func(v ssa.Value, depth int) bool {
+				if ex, ok := v.(*ssa.Extract); ok && ex.Index == 1 {
+					if cl, isCall := ex.Tuple.(*ssa.Call); isCall && m(&cl.Call) {
+						return true
+					}
+				}
+				return viaLiteral(v, depth, answer)
+			}
+			negated = func(v ssa.Value, depth int) bool {
+				if u, ok := v.(*ssa.UnOp); ok && u.Op == token.NOT {
+					return answer(u.X, depth)
+				}
+				return viaLiteral(v, depth, negated)
+			}
+			for _, r := range eng.Returns(top) {
+				if r.Block().Comment == "recover" {
+					continue
+				}
+				s := eng.ExprDeep(r.Results[0])
+				if negated(r.Results[0], 2) {
+					c.OK(top, "bypass = !modified", r.Pos(), s)
+				} else {
+					c.Violation(top, "bypass = !modified", r.Pos(), "the bypass predicate is not the negation of the tracker's 'modified' answer: "+s, nil)
 				}
 			}
 		}
